@@ -271,7 +271,9 @@ def c03_conversation(conv, p):
     for r in range(p["receivers"]):
         p_ops.append(["spawn", f"rcv{r}", [["recv_until", ch, 3]]])
     for w in range(p["waiters"]):
-        p_ops.append(["spawn", f"wc{w}", [["waitclose", ch]]])
+        # a waitclose() caller is an observer of the close in its own right
+        after = [] if p["how"] == "drop_cb" else [["isclosed", ch], ["send", ch, {"l": ["late-w"]}]]
+        p_ops.append(["spawn", f"wc{w}", [["waitclose", ch]] + after])
     if opp:
         p_ops.append(["spawn", "osnd", [["send", ch, it] for it in opp]])
     p_ops += [["join", f"rcv{r}"] for r in range(p["receivers"])]
@@ -350,8 +352,14 @@ def check_c03(result, ex, clause="close"):
                         f"(missing seqs {_seqs(missing)})")
     for w in range(ex["waiters"]):
         log = plogs.get(f"{peer}:{conv}:wc{w}", [])
-        if log != [["waitclose", ex["ch"], "ok"]]:
+        want = [["waitclose", ex["ch"], "ok"]]
+        if ex["how"] != "drop_cb":
+            want += [["isclosed", True], ["send", "oserror"]]
+        if log[:1] != want[:1]:
             raise Violation(f"{clause}.waitclose", f"{where}: waitclose caller {w} on the peer saw {log}")
+        if log != want:
+            raise Violation(f"{clause}.state-after-waitclose", f"{where}: after waitclose() returned on the peer, "
+                            f"isclosed()/send() gave {log[1:]}")
     # state after the close, on the peer (once it has observed the close) and on the closing side (immediately)
     def post(log, marker, who, with_close=True):
         if marker not in log:
